@@ -4,7 +4,8 @@
    specification (Spec/LiftSpec.v); the *_refines theorems say the offsets tables and mask arrays of the
    model of GenomicPositionOffsets compute them. *)
 From VV Require Import Model.Base Model.Pattern Model.Gpo Spec.LiftSpec
-  Proofs.LiftSpecProofs Proofs.ApplyProofs Proofs.GpoRefine Proofs.GpoTop Proofs.GpoNearest.
+  Proofs.LiftSpecProofs Proofs.ApplyProofs Proofs.GpoRefine Proofs.GpoTop Proofs.GpoNearest
+  Generated.KernelsLift Proofs.KernelLiftEquiv.
 
 (* the altered sequence is the reference with every variant spliced in *)
 Theorem C05_apply_variants_is_splice : forall start ref vs,
@@ -129,6 +130,12 @@ Proof.
   - unfold nearest_before. repeat split; try lia. intros x Hx. assert (x = 16) as -> by lia. reflexivity.
 Qed.
 
+(* the statistics the offsets are built from (net length change, last reference position) and the bounds test of
+   clamp_var_stats_collection, translated from var_stats.py on every run, are the model's *)
+Theorem C05_var_stats_match_source : forall v r,
+  k_vs_alt_ref_delta v = Ok (delta v) /\ k_vs_ref_end v = Ok (vref_end v) /\ k_vs_is_in_range v r = Ok (vs_in_range v r).
+Proof. intros v r. exact (conj (k_vs_alt_ref_delta_eq v) (conj (k_vs_ref_end_eq v) (k_vs_is_in_range_eq v r))). Qed.
+
 Print Assumptions C05_apply_variants_is_splice.
 Print Assumptions C05_alt_length.
 Print Assumptions C05_from_var_stats.
@@ -145,3 +152,4 @@ Print Assumptions C05_nearest_before.
 Print Assumptions C05_nearest_after.
 Print Assumptions C05_range_lift_shrink.
 Print Assumptions C05_range_lift_strict.
+Print Assumptions C05_var_stats_match_source.
